@@ -71,7 +71,12 @@ class FilterExprLexer:
 
     def t_INTEGER(self, token):
         r'-?\d+'
-        token.value = int(token.value)
+        try:
+            token.value = int(token.value)
+        except ValueError:
+            # Python limits the number of digits it converts.
+            self.errors.append('Integer literal is too long.')
+            token.value = 0
         return token
 
     def t_STRING(self, token):
